@@ -99,6 +99,12 @@ D3 == {Desc("a.b", <<MMethod("M", Struct(<<F("x", Chain(k[1], k[2]))>>), Struct(
 D2 == LET Ms == {MType("T", Leaf("int")), MMethod("M", Struct(<<F("a", Leaf("int"))>>), Struct(<<>>)),
                  MMethod("N", Struct(<<>>), Struct(<<F("r", Alias("T"))>>)), MError("E", <<>>), MError("F", <<Struct(<<F("c", Leaf("string"))>>)>>)} IN
   {Desc(n, <<MMethod("Q", Struct(<<>>), Struct(<<>>))>>) : n \in IfaceNames}
+  \* keywords and builtin names as field names; type names that are builtin names in another case; members differing in case
+  \cup {Desc("a.b", <<MMethod("M", Struct(<<F("type", Leaf("int")), F("method", Leaf("string")), F("error", Leaf("bool")), F("interface", Maybe(Leaf("int"))), F("string", Leaf("string")), F("int", Leaf("int"))>>),
+                                   Struct(<<F("object", Leaf("object")), F("bool", Leaf("bool")), F("float", Leaf("float")), F("e", Enum(<<"type", "method", "error">>))>>))>>),
+        Desc("a.b", <<MType("String", Struct(<<F("a", Leaf("string"))>>)), MType("Int", Leaf("int")), MType("Object", Enum(<<"a">>)),
+                      MMethod("M", Struct(<<F("x", Alias("String")), F("y", Alias("Int")), F("z", Maybe(Alias("Object")))>>), Struct(<<>>)),
+                      MMethod("Ab", Struct(<<>>), Struct(<<>>)), MMethod("AB", Struct(<<>>), Struct(<<>>)), MError("Abc", <<>>), MError("ABc", <<Struct(<<>>)>>)>>)}
   \cup {Desc("a.b", p) : p \in {q \in UNION {[1..k -> Ms] : k \in 1..3} :
                                   /\ \A i, j \in DOMAIN q : i # j => q[i].name # q[j].name
                                   /\ \E i \in DOMAIN q : q[i].kind = "method"
